@@ -4,7 +4,7 @@ import json
 import sys
 from types import SimpleNamespace
 
-from common import finish_replay, load_replay, main
+from common import finish_replay, load_replay, main, rng
 
 from streamflow.core.exception import FailureHandlingException, UnrecoverableWorkflowException, WorkflowExecutionException
 from streamflow.core.recovery import recoverable
@@ -56,6 +56,19 @@ def check_get_request():
     c = fm.get_request("k")
     if a is not b or b.version != 2 or c is a or c.version != 1 or fm._retry_requests.get("j") is not a:
         return {"same_object": a is b, "version": b.version, "other_version": c.version}
+    # a wide workflow: hundreds of jobs pass through get_request between two failures of one job; its counter survives
+    fm, _ = mk(3)
+    first = [fm.get_request(f"/wide/0.{i}") for i in range(5)]
+    for i, r in enumerate(first):
+        r.version = 2 + (i % 2)
+    others = [fm.get_request(f"/scatter/0.{i}") for i in range(rng.choice([130, 300, 700]))]
+    again = [fm.get_request(f"/wide/0.{i}") for i in range(5)]
+    for i, (r0, r1) in enumerate(zip(first, again)):
+        if r1 is not r0 or r1.version != 2 + (i % 2):
+            return {"failure": "the retry counter of a job is lost once many other jobs have been registered", "job": f"/wide/0.{i}", "registered_in_between": len(others),
+                    "same_object": r1 is r0, "version": r1.version, "expected_version": 2 + (i % 2)}
+    if len(fm._retry_requests) != 5 + len(others):
+        return {"failure": "registered retry requests disappear", "registered": 5 + len(others), "kept": len(fm._retry_requests)}
     return None
 
 
@@ -208,6 +221,96 @@ def check_reduce_statuses():
     return None
 
 
+async def _real_run(phase, limit, failures):
+    """one real workflow (injector -> schedule -> transfer -> execute) under the real RollbackFailureManager with `limit` retries; the
+    given phase of its single job fails `failures` times in a row (soft errors: no data is lost).  Uses the repository's own failure
+    injectors (tests/utils/workflow.py)."""
+    import collections
+    import logging
+    import posixpath
+    import shutil
+    import tempfile
+
+    from streamflow.core.workflow import Token
+    from streamflow.log_handler import logger
+    from streamflow.main import build_context
+    from streamflow.workflow.executor import StreamFlowExecutor
+    from tests.utils.deployment import get_deployment_config
+    from tests.utils.utils import inject_tokens
+    from tests.utils import workflow as tw
+
+    logger.setLevel(logging.CRITICAL)
+    logging.getLogger("asyncio").setLevel(logging.CRITICAL)
+    attempts = collections.Counter()
+    target = {"execute": (tw.InjectorFailureCommand, "execute"), "transfer": (tw.InjectorFailureTransferStep, "transfer"),
+              "schedule": (tw.InjectorFailureScheduleStep, "_set_job_directories")}[phase]
+    original = getattr(*target)
+
+    async def counting(self, *a, **k):
+        attempts[phase] += 1
+        return await original(self, *a, **k)
+
+    setattr(target[0], target[1], counting)
+    workdir = tempfile.mkdtemp(prefix="c17run.")
+    context = build_context({"failureManager": {"type": "default", "config": {"max_retries": limit, "retry_delay": 0}},
+                             "database": {"type": "default", "config": {"connection": ":memory:"}}, "path": workdir})
+    try:
+        config = await get_deployment_config(context, tw.RecoveryTranslator.LOCAL_FS_VOLATILE)
+        await context.deployment_manager.deploy(config)
+        workflow = next(iter(await tw.create_workflow(context, num_port=0)))
+        translator = tw.RecoveryTranslator(workflow)
+        translator.deployment_configs = {config.name: config}
+        injector = translator.get_base_injector_step([config.name], "test_in", posixpath.join(posixpath.sep, "test_in"), workflow)
+        await inject_tokens(token_list=[Token(100, recoverable=True)], in_port=injector.get_input_port("test_in"), context=context, save_input_token=False)
+        translator.get_execute_pipeline(
+            command="lambda x : ('copy', 'primitive', x['test_in'].value)", deployment_names=[config.name],
+            input_ports={"test_in": injector.get_output_port("test_in")}, outputs={"test_out": "primitive"},
+            step_name=posixpath.join(posixpath.sep, "J", "step"), workflow=workflow,
+            failure_tags={"0": failures}, failure_step=phase, failure_type=tw.RecoveryTranslator.SOFT_ERROR)
+        await workflow.save(context.database)
+        try:
+            await asyncio.wait_for(StreamFlowExecutor(workflow).run(), timeout=120)
+            outcome = "completed"
+        except asyncio.TimeoutError:
+            outcome = "HANG"
+        except Exception as e:  # noqa
+            outcome = type(e).__name__
+        return outcome, attempts[phase]
+    finally:
+        setattr(target[0], target[1], original)
+        try:
+            await context.deployment_manager.undeploy_all()
+            await context.close()
+        except Exception:
+            pass
+        shutil.rmtree(workdir, ignore_errors=True)
+
+
+def check_real_runs(cases):
+    """the statement on real runs: the failing phase is attempted at most `limit` times; fewer failures than the limit -> the workflow
+    completes; as many or more -> the executor raises (it neither hangs nor returns as if nothing had happened)"""
+    for phase, limit, failures in cases:
+        try:
+            outcome, attempts = asyncio.run(_real_run(phase, limit, failures))
+        except Exception as e:  # noqa
+            return {"unit": "real run", "failure": f"the run could not be set up or crashed: {type(e).__name__}: {e}", "phase": phase, "limit": limit, "failures": failures}
+        want = "completed" if failures < limit else "WorkflowExecutionException"
+        if outcome != want or attempts > limit or (outcome == "completed" and attempts != failures + 1):
+            return {"unit": "real run", "failure": "retry bound broken on a real run", "phase": phase, "max_retries": limit, "injected_failures": failures,
+                    "outcome": outcome, "expected_outcome": want, "attempts_of_the_failing_phase": attempts}
+    return None
+
+
+def real_run_cases(n):
+    grid = [(ph, lim, f) for ph in ("execute", "transfer", "schedule") for lim in (1, 2, 3) for f in range(0, lim + 3)]
+    if n >= len(grid):
+        return grid
+    # always: exhaustion in every phase; then a random sample of the rest
+    must = [(ph, 2, 3) for ph in ("execute", "transfer", "schedule")]
+    rest = [c for c in grid if c not in must]
+    return must + rng.sample(rest, max(0, n - len(must)))
+
+
 def replay(path):
     d = load_replay(path)
     unit = d["unit"]
@@ -222,7 +325,10 @@ def replay(path):
 
 def crosscheck(n):
     bad = [x for x in (check_update(), check_get_request(), check_dummy(), check_wrapper(), check_handle_failure(), check_synchronize(), check_reduce_statuses()) if x]
-    print(json.dumps({"inputs": 7, "native_contract_failures": len(bad), "samples": bad[:2]}))
+    cases = real_run_cases(6 if int(n) <= 100 else 60)
+    if not bad:
+        bad = [x for x in (check_real_runs(cases),) if x]
+    print(json.dumps({"inputs": 7 + len(cases), "native_contract_failures": len(bad), "samples": bad[:2]}))
     sys.exit(1 if bad else 0)
 
 
